@@ -101,7 +101,7 @@ def gen_lens(rng, nsurf=None, allow_mirror=True, allow_conic=True, allow_asphere
             s['radius'] = mag if rng.random() < 0.5 else -mag
         if allow_conic and s['radius'] != INF and rng.random() < 0.3:
             s['conic'] = dyadic(rng, -3, 1, 5)
-        mirror = allow_mirror and (not in_glass) and rng.random() < 0.12
+        mirror = allow_mirror and ((not in_glass and rng.random() < 0.12) or (in_glass and rng.random() < 0.06))
         if mirror:
             s['material'] = {'kind': 'mirror'}
             direction = -direction
@@ -140,18 +140,21 @@ def gen_lens(rng, nsurf=None, allow_mirror=True, allow_conic=True, allow_asphere
             R = abs(s['radius'])
             if rng.random() < 0.5:
                 s['surface_type'] = 'polynomial'
-                c = [[0.0, 0.0, 0.0], [0.0, 0.0, 0.0], [0.0, 0.0, 0.0]]
-                c[2][0] = rng.uniform(-1, 1) * 1e-3 / R
-                c[0][2] = rng.uniform(-1, 1) * 1e-3 / R
-                c[1][1] = rng.uniform(-1, 1) * 1e-4 / R
-                c[1][0] = rng.uniform(-1, 1) * 1e-4
+                nr, nc = rng.choice([(3, 3), (3, 3), (1, 4), (2, 5), (3, 5), (4, 2), (5, 3), (4, 4)])
+                c = [[0.0] * nc for _ in range(nr)]
+                for i in range(nr):
+                    for j in range(nc):
+                        if 1 <= i + j <= 4 and rng.random() < 0.6:
+                            c[i][j] = rng.uniform(-1, 1) * 10.0 ** (-2 - 2 * (i + j)) * (30.0 / R if i + j == 2 else 1.0)
                 s['coefficients'] = c
             else:
                 s['surface_type'] = 'chebyshev'
-                c = [[0.0, 0.0, 0.0], [0.0, 0.0, 0.0], [0.0, 0.0, 0.0]]
-                c[2][0] = rng.uniform(-1, 1) * 1e-3
-                c[0][2] = rng.uniform(-1, 1) * 1e-3
-                c[1][1] = rng.uniform(-1, 1) * 1e-3
+                nr, nc = rng.choice([(3, 3), (3, 3), (2, 4), (4, 2), (1, 3), (3, 5)])
+                c = [[0.0] * nc for _ in range(nr)]
+                for i in range(nr):
+                    for j in range(nc):
+                        if 1 <= i + j <= 4 and rng.random() < 0.6:
+                            c[i][j] = rng.uniform(-1, 1) * 1e-3
                 s['coefficients'] = c
                 s['norm_x'] = 50.0
                 s['norm_y'] = 50.0
